@@ -365,6 +365,28 @@ def escape_arms(ctx):
                     ch = chr(o[1])
                 elif isinstance(o, tuple) and o[0] == "other" and s in (ESC_CH, ESC_CH2):
                     ch = "default"
+            # a range pattern ('1'..='9') is tested by comparisons, not by a switch: the path belongs to every
+            # character of the (small) range the comparisons confine the escape character to
+            lo, hi = None, None
+            for a, o in p.guards:
+                if isinstance(a, tuple) and a[0] == "lt" and o in (True, False):
+                    l_, r_ = a[1], a[2]
+                    ls, rs_ = render(l_), render(r_)
+                    cv = lambda x: x[2] if (isinstance(x, tuple) and x[0] == "const" and x[1] in ("char", "int") and isinstance(x[2], int)) else None
+                    if ls in (ESC_CH, ESC_CH2) and cv(r_) is not None:      # c < K  /  !(c < K)
+                        if o:
+                            hi = cv(r_) - 1 if hi is None else min(hi, cv(r_) - 1)
+                        else:
+                            lo = cv(r_) if lo is None else max(lo, cv(r_))
+                    elif rs_ in (ESC_CH, ESC_CH2) and cv(l_) is not None:   # K < c  /  !(K < c)
+                        if o:
+                            lo = cv(l_) + 1 if lo is None else max(lo, cv(l_) + 1)
+                        else:
+                            hi = cv(l_) if hi is None else min(hi, cv(l_))
+            if ch in (None, "default") and lo is not None and hi is not None and 0 <= hi - lo < 64:
+                for cp in range(lo, hi + 1):
+                    arms.setdefault(chr(cp), []).append(p)
+                continue
             arms.setdefault(ch, []).append(p)
         return b, arms, w
 
